@@ -264,6 +264,8 @@ def contract_tags(path, fn, ctl=False):
             for line in m.group(1).splitlines():
                 if line.strip().startswith('V_ENSURES_WF') and ctl:
                     continue      # compiled out in control-only units (-DVERIF_CTL)
+                if line.strip().startswith('V_ENSURES_CTL') and not ctl:
+                    continue      # exists only in control-only units
                 if line.strip().startswith('V_ENSURES'):
                     t = re.search(r'/\*@([^*]+)\*/\s*$', line)
                     tags.append(t.group(1).strip() if t else None)
